@@ -7,6 +7,8 @@ HARNESSES = [
     {"name": "main", "src": "harness.cpp", "flags": ["-O1", "-DTETL_ENABLE_CONTRACT_CHECKS=1"]},
     {"name": "asan", "src": "harness.cpp", "flags": ["-O1", "-g", "-fsanitize=address,undefined", "-fno-sanitize-recover=all",
                                                       "-DTETL_ENABLE_CONTRACT_CHECKS=1"], "thorough_only": True},
+    # another build mode: full optimisation, contract checks compiled out (undefined behaviour that only -O2 exploits would show here)
+    {"name": "o2", "src": "harness.cpp", "flags": ["-O2"], "thorough_only": True},
 ]
 SORTS = ("sort", "stable_sort", "insertion_sort", "gnome_sort", "bubble_sort", "exchange_sort", "merge_sort")
 
